@@ -166,9 +166,11 @@ theorem C14_any_history_with_clones (ss : List Step) (h : Heap) (hs : Struct h) 
     Struct (ss.foldl Step.run h) ∧ Acyc (ss.foldl Step.run h) ∧ h.size ≤ (ss.foldl Step.run h).size :=
   steps_sound ss h hs ha hv
 
-/-- the hypothesis is satisfiable: clone the root of a two-node tree, then edit the copy's child and clone the copy -/
+/-- the hypothesis is satisfiable: clone the root of a two-node tree, edit the copy's child, clone the copy, assign containers, SetNode,
+then construct a number and an array (`NumericNode`, `ArrayNode(nil)`) and append to and from them -/
 example : ValidSteps { nodes := [{ type := .array, children := some [([48], 1)] }, { type := .null, parent := some 0, index := some 0 }] }
-    [.clone 0, .edit (.setNull 3), .clone 2, .edit (.appendArray 2 4), .setArray 0 [3, 1], .setObject 4 [([97], 2)], .setNode 1 4] := by
+    [.clone 0, .edit (.setNull 3), .clone 2, .edit (.appendArray 2 4), .setArray 0 [3, 1], .setObject 4 [([97], 2)], .setNode 1 4,
+     .newNumeric [] 0x4000000000000000, .newArray [107], .edit (.appendArray 0 8), .edit (.appendArray 9 0)] := by
   simp only [ValidSteps, Step.names, Edit.names, Step.run, Edit.run]
   decide
 
